@@ -202,11 +202,16 @@ def configs(tier):
     # second order through the custom backward with operators that are NOT linear in their parameters
     add("grad/custom_exactsolve/matmul/A/n2c1/2nd", gradient, n=2, ncols=1, method="custom_exactsolve", opkind="matmul", second=True)
     add("grad/closed_form/matmul/AE/n2c1/2nd", gradient, n=2, ncols=1, method="closed_form", opkind="matmul", withE=True, second=True)
+    add("grad/custom_exactsolve/mvonly/A/n2c1/2nd", gradient, n=2, ncols=1, method="custom_exactsolve", opkind="mvonly", second=True)
     add("grad/custom_exactsolve/nonlinear/A/n2c1/2nd", gradient, n=2, ncols=1, method="custom_exactsolve", opkind="nonlinear",
         second=True)
     for opkind in ("mvonly", "mvrmv", "mvmm", "all", "herm", "herm_mv", "add", "sub", "mul", "matmul", "adjoint", "add_dense"):
         add("grad/custom_exactsolve/%s/AE/n2c1" % opkind, gradient, n=2, ncols=1, method="custom_exactsolve", opkind=opkind,
             withE=True)
+    # complex composed operators with a dense-wrapped component next to a matrix-free one (adjoint through rmv of each part)
+    for opkind in ("add_dense", "add", "sub"):
+        add("grad/custom_exactsolve/%s/A/n2c1/complex" % opkind, gradient, n=2, ncols=1, method="custom_exactsolve", opkind=opkind,
+            complex_=True)
     for opkind in ("mvonly", "matmul", "mul", "adjoint"):
         add("grad/closed_form/%s/A/n2c1/complex" % opkind, gradient, n=2, ncols=1, method="closed_form", opkind=opkind,
             complex_=True)
